@@ -454,7 +454,7 @@ def gen_names(rng, n, allow_hash, allow_sub, friendly=False, multi=False, high=F
             while j < len(tail) and P5.isdig(tail[j]):
                 j += 1
             twin = head + str(rng.randrange(int(tail[:j]) + 1)).encode() + tail[j:]
-            if twin not in seen:
+            if twin not in seen and not (twin.endswith(b"/") and alt_before_hash(twin)):    # a#2/b{c,d}#3/ -> a1/b{c,d}#3/
                 seen.add(twin); names.append(twin)
         if not friendly and not sub and b":" in name and rng.random() < 0.2 and len(names) < n:   # same key, other types
             other = name.split(b":")[0] + rng.choice([b":f", b":T", b":ss"])
